@@ -409,3 +409,18 @@ func loopMap(base, cur []string) map[int]int {
 	}
 	return out
 }
+
+func litsFile(verif string) string { return filepath.Join(verif, "claims", "lits.json") }
+
+func loadLits(verif string) map[string][]string {
+	m := map[string][]string{}
+	if b, err := os.ReadFile(litsFile(verif)); err == nil {
+		json.Unmarshal(b, &m)
+	}
+	return m
+}
+
+func saveLits(verif string, m map[string][]string) {
+	b, _ := json.MarshalIndent(m, "", " ")
+	os.WriteFile(litsFile(verif), append(b, '\n'), 0o644)
+}
